@@ -10,6 +10,32 @@ void __sanitizer_start_switch_fiber(void **fake_stack_save, const void *bottom, 
 void __sanitizer_finish_switch_fiber(void *fake_stack_save, const void **bottom_old, size_t *size_old) __attribute__((weak));
 }
 
+// void sim_ctx_switch(void **save_sp, void *load_sp): save callee-saved registers and the stack
+// pointer of the current context, continue on the other one.
+asm(R"(
+    .text
+    .globl sim_ctx_switch
+    .type sim_ctx_switch,@function
+sim_ctx_switch:
+    pushq %rbp
+    pushq %rbx
+    pushq %r12
+    pushq %r13
+    pushq %r14
+    pushq %r15
+    movq %rsp, (%rdi)
+    movq %rsi, %rsp
+    popq %r15
+    popq %r14
+    popq %r13
+    popq %r12
+    popq %rbx
+    popq %rbp
+    ret
+    .size sim_ctx_switch,.-sim_ctx_switch
+)");
+extern "C" void sim_ctx_switch(void **save_sp, void *load_sp);
+
 namespace sim {
 
 Tasks *g_tasks = nullptr;
@@ -54,11 +80,14 @@ int Tasks::spawn(const std::string &name, std::function<int()> entry) {
     t->entry = std::move(entry);
     t->stack = stack_addr(id);
     t->stack_size = kStackSize;
-    getcontext(&t->ctx);
-    t->ctx.uc_stack.ss_sp = t->stack;
-    t->ctx.uc_stack.ss_size = t->stack_size;
-    t->ctx.uc_link = nullptr;
-    makecontext(&t->ctx, (void (*)())trampoline, 0);
+    // initial frame: six callee-saved registers, then the address sim_ctx_switch returns to.
+    // After that 'ret' the stack pointer must be 8 modulo 16, as at any function entry.
+    uint64_t *top = (uint64_t *)(t->stack + t->stack_size);
+    top -= 2;                        // keep the very top words free (stay 0xA5-filled below)
+    *--top = 0;                      // fake return address of trampoline (never used)
+    *--top = (uint64_t)&Tasks::trampoline;
+    for (int i = 0; i < 6; i++) *--top = 0;
+    t->sp = top;
     tasks_.push_back(t);
     return id;
 }
@@ -67,7 +96,7 @@ void Tasks::switch_to(Task *t) {
     cur_ = t;
     t->switches++;
     if (__sanitizer_start_switch_fiber) __sanitizer_start_switch_fiber(&sched_fake_, t->stack, t->stack_size);
-    swapcontext(&sched_ctx_, &t->ctx);
+    sim_ctx_switch(&sched_sp_, t->sp);
     if (__sanitizer_finish_switch_fiber) __sanitizer_finish_switch_fiber(sched_fake_, nullptr, nullptr);
     cur_ = nullptr;
 }
@@ -77,7 +106,7 @@ void Tasks::to_sched() {
     bool dying = t->state == Task::DONE;
     if (__sanitizer_start_switch_fiber)
         __sanitizer_start_switch_fiber(dying ? nullptr : &t->asan_fake, sched_stack_bottom_, sched_stack_size_);
-    swapcontext(&t->ctx, &sched_ctx_);
+    sim_ctx_switch(&t->sp, sched_sp_);
     if (__sanitizer_finish_switch_fiber)
         __sanitizer_finish_switch_fiber(t->asan_fake, &sched_stack_bottom_, &sched_stack_size_);
 }
